@@ -1581,9 +1581,30 @@ func (p *GoProg) propagateNewLocals() {
 			blank := &ast.Ident{Name: "_", NamePos: as.Lhs[0].Pos()}
 			as.Lhs[0] = blank
 			as.Tok = token.ASSIGN
-			// every use now evaluates the expression itself; the definition keeps its own evaluation (`_ = e`), which the
-			// normal forms drop unless it can panic — an index, slice, dereference or division hoisted above its guard
-			// still fails where the program fails (seeded change C05-w6m2: `last := buf[position]` above the length test)
+			// every use now evaluates the expression itself; a definition that can panic keeps its own evaluation
+			// (`_ = e`) — an index, slice, dereference or division hoisted above its guard still fails where the program
+			// fails (seeded change C05-w6m2: `last := buf[position]` above the length test); any other becomes `_ = 0`
+			risky := false
+			ast.Inspect(as.Rhs[0], func(x ast.Node) bool {
+				switch b := x.(type) {
+				case *ast.IndexExpr:
+					if _, isMap := p.Info.TypeOf(b.X).Underlying().(*types.Map); !isMap {
+						risky = true
+					}
+				case *ast.SliceExpr, *ast.StarExpr, *ast.TypeAssertExpr:
+					risky = true
+				case *ast.BinaryExpr:
+					if b.Op == token.QUO || b.Op == token.REM {
+						risky = true
+					}
+				}
+				return true
+			})
+			if !risky {
+				zero := &ast.BasicLit{Kind: token.INT, Value: "0", ValuePos: as.Rhs[0].Pos()}
+				p.Info.Types[zero] = types.TypeAndValue{Type: types.Typ[types.UntypedInt]}
+				as.Rhs[0] = zero
+			}
 		}
 	}
 }
